@@ -431,6 +431,9 @@ def main_check(prop, tier, seed):
 
     # de-duplicate violations by mechanism key
     by_key = collections.OrderedDict()
+    # witnesses that were reproduced in a fresh interpreter (C11) come first
+    merged.violations.sort(key=lambda v: 0 if str(v['case'].get('confirmation', '')).startswith('reproduced') else 1
+                           if isinstance(v.get('case'), dict) else 1)
     for v in merged.violations:
         k = '%s|%s' % (v['clause'], v['key'])
         cur = by_key.get(k)
